@@ -58,7 +58,14 @@ func HarnessC09() {
 	wNFinders = 1
 	wSymContent, wSymMeta = false, true
 	wExtras = true
-	b, err := NewBuilder(wTarget, wFetcher{}, wRegistry{})
+	target := wTarget
+	if verif.Bool("target.below-symlinked-parent") {
+		envMkdir("/w/real", 0755, 100)
+		envMkdir("/w/real/t2", 0755, 100)
+		envSymlink("/w/via", "real", 100)
+		target = "/w/via/t2"
+	}
+	b, err := NewBuilder(target, wFetcher{}, wRegistry{})
 	verif.Assume(err == nil)
 	ctx := wCtx{wTracer()}
 	envMkdir("/w/x", 0755, 100)
@@ -82,10 +89,10 @@ func HarnessC09() {
 			verif.Assert("C09-package-metadata-survives", got != nil && *got == *want)
 		}
 	}
-	again, err := OpenDir(wTarget)
+	again, err := OpenDir(target)
 	verif.Assert("C09-reopen-succeeds", err == nil)
 	if err == nil {
-		c09SameBundle("reopen", bundle, again, wTarget, wTarget)
+		c09SameBundle("reopen", bundle, again, target, target)
 	}
 	// (ii) archive and extract
 	envBaseline()
@@ -100,8 +107,8 @@ func HarnessC09() {
 		return
 	}
 	verif.Reach("extracted")
-	c09SameBundle("archive", bundle, ex, wTarget, "/w/x")
-	ta, tb := envSnapshot(wTarget), envSnapshot("/w/x")
+	c09SameBundle("archive", bundle, ex, target, "/w/x")
+	ta, tb := envSnapshot(target), envSnapshot("/w/x")
 	verif.Assert("C09-same-files", len(ta) == len(tb))
 	for i := range ta {
 		if i >= len(tb) {
